@@ -31,7 +31,7 @@ open Knut.AtomicWrite
 
 /-- **all-or-nothing at every moment.** -/
 theorem C18_invariant (render : Bytes → Option Bytes) (sc : Scenario) {tmp target : Path} (fs : FS) (hne : tmp ≠ target) :
-    ∀ st ∈ (rewriteFile render sc tmp target fs).states,
+    ∀ st ∈ (rewriteFile render sc tmp target fs).states (),
       FS.get st target = FS.get fs target ∨
       ∃ f new, FS.get fs target = some f ∧ render f.content = some new ∧ FS.get st target = some ⟨new, f.mode⟩ := by
   have hnt : target ≠ tmp := fun h => hne h.symm
@@ -57,13 +57,13 @@ theorem C18_invariant (render : Bytes → Option Bytes) (sc : Scenario) {tmp tar
 state "temp file holds the first `j` bytes, everything else as before" is one of the states of the run. -/
 theorem C18_every_prefix_is_a_state (sc : Scenario) {tmp target : Path} (new : Bytes) (fs : FS)
     (hc : sc.fault ≠ some .createTemp) (j : Nat) (hj : j ≤ written sc new) :
-    FS.set fs tmp ⟨new.take j, 0o600⟩ ∈ (writeFile sc tmp target new fs).states := by
-  have hmem : FS.set fs tmp ⟨new.take j, 0o600⟩ ∈ [fs, FS.set fs tmp ⟨[], 0o600⟩] ++
-      (List.range (written sc new + 1)).map (fun j => FS.set fs tmp ⟨new.take j, 0o600⟩) := by
+    FS.set fs tmp ⟨new.take j, 0o600⟩ ∈ (writeFile sc tmp target new fs).states () := by
+  have hmem : FS.set fs tmp ⟨new.take j, 0o600⟩ ∈ copyStates sc tmp new fs := by
+    unfold copyStates
     apply List.mem_append_right
     exact List.mem_map.mpr ⟨j, by simp; omega, rfl⟩
-  have hcl : ∀ (st : List FS) (f : FS) (op : Op), FS.set fs tmp ⟨new.take j, 0o600⟩ ∈ st →
-      FS.set fs tmp ⟨new.take j, 0o600⟩ ∈ (cleanup sc tmp st f op).states := by
+  have hcl : ∀ (st : Unit → List FS) (f : FS) (op : Op), FS.set fs tmp ⟨new.take j, 0o600⟩ ∈ st () →
+      FS.set fs tmp ⟨new.take j, 0o600⟩ ∈ (cleanup sc tmp st f op).states () := by
     intro st f op h
     unfold cleanup
     split
@@ -125,7 +125,7 @@ theorem C18_ok_means_new (render : Bytes → Option Bytes) (sc : Scenario) {tmp 
 /-- **a parse error (or an unreadable target) leaves the file system bit-identical**: no state in between at all. -/
 theorem C18_parse_error_untouched (render : Bytes → Option Bytes) (sc : Scenario) (tmp target : Path) (fs : FS)
     (h : ∀ f, FS.get fs target = some f → render f.content = none) :
-    (rewriteFile render sc tmp target fs).states = [fs] ∧ (rewriteFile render sc tmp target fs).final = fs ∧
+    (rewriteFile render sc tmp target fs).states () = [fs] ∧ (rewriteFile render sc tmp target fs).final = fs ∧
     ((rewriteFile render sc tmp target fs).outcome = .error .read ∨ (rewriteFile render sc tmp target fs).outcome = .error .parse) := by
   unfold rewriteFile
   split
@@ -139,7 +139,7 @@ theorem C18_parse_error_untouched (render : Bytes → Option Bytes) (sc : Scenar
 /-- **no other path is touched**, at any time. -/
 theorem C18_others_untouched (render : Bytes → Option Bytes) (sc : Scenario) {tmp target : Path} (fs : FS) (hne : tmp ≠ target)
     {p : Path} (hp1 : p ≠ tmp) (hp2 : p ≠ target) :
-    ∀ st ∈ (rewriteFile render sc tmp target fs).states, FS.get st p = FS.get fs p :=
+    ∀ st ∈ (rewriteFile render sc tmp target fs).states (), FS.get st p = FS.get fs p :=
   rewriteFile_frame render sc fs hne hp1 hp2
 
 /-- **several files are independent**: with pairwise different targets and temp names, every target ends
@@ -194,7 +194,7 @@ example : (rewriteFile demoRender {} "a.knut.tmp" "a.knut" demoFS).outcome = .ok
 example : FS.get (rewriteFile demoRender {} "a.knut.tmp" "a.knut" demoFS).final "a.knut" = some ⟨[1, 2, 3, 10], 0o644⟩ := by decide
 example : (rewriteFile demoRender { limit := some 2 } "a.knut.tmp" "a.knut" demoFS).outcome = .error .write := by decide
 example : FS.get (rewriteFile demoRender { limit := some 2 } "a.knut.tmp" "a.knut" demoFS).final "a.knut" = some ⟨[1, 2, 3], 0o644⟩ := by decide
-example : (rewriteFile demoRender { limit := some 2 } "a.knut.tmp" "a.knut" demoFS).states.length = 6 := by decide
+example : ((rewriteFile demoRender { limit := some 2 } "a.knut.tmp" "a.knut" demoFS).states ()).length = 6 := by decide
 example : (rewriteFile demoRender {} "b.knut.tmp" "b.knut" demoFS).outcome = .error .parse := by decide
 example : (rewriteAll demoRender [⟨{}, "b.knut.tmp", "b.knut"⟩, ⟨{}, "a.knut.tmp", "a.knut"⟩] demoFS).2 = [.error .parse, .ok] := by decide
 /-- what a non-atomic writer (truncate, then write) leaves behind after a write cut short fails the predicate -/
